@@ -46,7 +46,7 @@ pub fn tok_canon(t: &Token) -> String {
             Whitespace::Space => "WS:Space".into(),
             Whitespace::Newline => "WS:Newline".into(),
             Whitespace::Tab => "WS:Tab".into(),
-            Whitespace::SingleLineComment { comment, prefix } => format!("WS:SLC:{}:{}", hex(prefix), hex(comment)),
+            Whitespace::SingleLineComment { comment, prefix, .. } => format!("WS:SLC:{}:{}", hex(prefix), hex(comment)),
             Whitespace::MultiLineComment(s) => format!("WS:MLC:{}", hex(s)),
         },
         other => tok_variant(other),
